@@ -1275,6 +1275,17 @@ impl Tuple {
         Ok(())
     }
 
+    /// Removes the deletion mark again. Used by VACUUM for a DELETE whose transaction rolled back,
+    /// before the aborted transaction itself is forgotten.
+    pub(crate) fn undelete(&mut self) -> TupleResult<()> {
+        let buffer = self.data.effective_data_mut();
+        let (mut header, _) = TupleHeader::read_from(buffer, 0);
+        header.xmax = -1;
+        header.write_to(buffer, 0);
+
+        Ok(())
+    }
+
     /// Vacuums the tuple by removing all delta versions that are no longer needed
     /// by any active transaction.
     ///
